@@ -8,7 +8,8 @@ import EaselModel.Dist.BisectCarrier
 /-! Line-protocol driver for the C10 model: runs the TRANSLATED functions at `Float` — since round 3 including the
     mixtures (`esl_hxp_*`, `esl_mixgev_*`, `esl_vec_DLogSum/DMax/DMin`), the four bracketing + bisection inverses (fuel
     `Bisect.defaultFuel` per loop; `hang` = exhausted) and the generic-API wrappers.  Hand-modelled remain: the special
-    functions (`Dist/Special.lean`, `erfcSun`) and the component choice of the mixture samplers (`Mix.dchoose`).
+    functions (`Dist/Special.lean`, `erfcSun`) and the component choice of the mixture samplers (`Mix.dchoose`); `esl_gam_Sample`
+    is translated since round 6 (stream of variates as `Nat → Float`).
     `f fn=<name> a=<bits>,<bits>,…`            → `ok <bits> b=<n>` (`b` = which `return` of the translated function was reached)
     `f2 fn=<g>,<f> a=<x>,<params…>`             → `ok <bits of g(f(x,params),params)>`
     `sample fn=<name> seed=<n> k=<draws> a=…`  → `ok <bits>,…` (k successive samples from a fresh MT19937 generator)
@@ -204,9 +205,12 @@ def step (s : Unit) (line : String) : Unit × String :=
   | "gamsample" :: _ =>
     match argList? ws "t", (arg? ws "a").bind parseBitsList with
     | some ts, some [mu, lambda, tau] =>
-      match Mix.gamSample mu lambda ts with
-      | some v => (s, s!"ok {hex64 v.toBits},{hex64 tau.toBits}")      -- `esl_rnd_Gamma(r, tau)`: the shape drawn with
-      | none => (s, "hang")
+      -- round 6: the TRANSLATED `esl_gam_Sample` on the stream `ts` (fuel = its length: `none` = the C loop would draw again);
+      -- second value: the argument the translated function hands to `esl_rnd_Gamma(r, ·)`
+      match Gen.esl_gam_Sample ts.length (fun i => ts.getD i 0.0) mu lambda tau, Gen.esl_gam_Sample_draw mu lambda tau with
+      | some v, [shape] => (s, s!"ok {hex64 v.toBits},{hex64 shape.toBits}")
+      | none, _ => (s, "hang")
+      | _, _ => (s, "bad-op")
     | _, _ => (s, "bad-op")
   | "bracketlim" :: _ =>
     -- the carrier facts (R), (A) of `BisectCarrier.invcdfRightLim_above_sup` evaluated at binary64, and its conclusion
